@@ -549,9 +549,9 @@ def l6(ctx: Ctx):
         pat = e.re.pattern
         body = pat
         if term == "str_literal":
-            body = re.sub(r'^\\"', "", re.sub(r'\\"$', "", pat))
+            body = re.sub(r'^\\?"', "", re.sub(r'\\?"$', "", pat))
         elif term == "partial_str_lit":
-            body = re.sub(r'^\\"', "", pat)
+            body = re.sub(r'^\\?"', "", pat)
         Lb = Lang.from_regex(body)
         w = Lb.intersect(anyq).witness()
         w2 = Lb.intersect(Lang.from_regex(r"(?:.|\n)*\n(?:.|\n)*")).witness()
